@@ -206,7 +206,7 @@ def translated_vs_python(run: lib.Run, facts: dict) -> tuple[bool, str]:
     Rbacx/Run/SrcEvalSinks.lean`) against the SAME statements of the current source text, compiled as a real `async def` and driven by
     CPython (pytolean_sinks.block_as_python) with RECORDING sink objects: every combination of {attribute missing, attribute None, `def`,
     `async def`} × {returns, raises} for `metrics.inc`, `metrics.observe` and `logger_sink.log`, `metrics=None`, `logger_sink=None`, over
-    Decision objects of every shape — compared on the list of calls (which sink, ran as a coroutine, arguments) and on the returned value
+    Decision objects of every shape — compared on the list of calls (which sinks' work ran — an awaitable counts when it was awaited —, arguments) and on the returned value
     (which must be the very Decision object handed in).  `getattr`, `inspect.iscoroutinefunction`, `await`, the three try/except blocks
     and `max(0.0, _now() - start)` are CPython's own.  Validates the readings the obligation C11_sinks_translated trusts."""
     import dataclasses
@@ -366,7 +366,7 @@ def sinks_obligation(run: lib.Run, audit: dict) -> tuple[bool, bool, str, dict |
         tr = {**tr, "extraction_failed": tr["engine_sinks"]["failed"]}
     ok_tr, detail_tr = lib.run_obligation("C11_sinks_translated", deps=["C01_translated"])
     run.obligation("C11_sinks_translated: Generated.Src.engine_sinks (the current source text of Guard._evaluate_core_async from `if self.metrics "
-                   "is not None:` to `return d`, as a sink-call trace; the three sinks as parameters: absent / def / async def, returning / raising) "
+                   "is not None:` to `return d`, as a sink-call trace; the three sinks as parameters: absent / def / async def / def returning an awaitable, returning / raising) "
                    "returns the Decision it was handed and ends `returned` whatever the sinks do, makes exactly one inc, one observe, one log call in "
                    "this order (each iff its object is configured and has the attribute) with the labels / payload of Src.engine_metric_labels / "
                    "Src.engine_audit_payload = the events of the model's finishDecision",
@@ -376,7 +376,7 @@ def sinks_obligation(run: lib.Run, audit: dict) -> tuple[bool, bool, str, dict |
     else:
         ok_py, detail_py = translated_vs_python(run, tr)
     run.obligation("translated sink block evaluates like the same statements run by CPython with recording sinks (pytolean_sinks + "
-                   "Model/PySinks.lean vs CPython: getattr, iscoroutinefunction, await, try/except, def / async def / raising / missing sinks)",
+                   "Model/PySinks.lean vs CPython: getattr, await maybe_await, try/except, def / async def / awaitable-returning / raising / missing sinks)",
                    ok_py, detail_py)
     return ok_tr, ok_py, (detail_tr if not ok_tr else detail_py), tr
 
